@@ -626,8 +626,48 @@ theorem inv_decoNew (s : St κ) (t : Task) (k : κ) (km : Bool) (h : Inv s) : In
   · exact inv_unique s t k false h
   · exact h
 
+/-- the end of a task's body releases nothing and cancels nobody: it only ends the kill-me halt -/
+theorem endBody_fields (s : St κ) (t : Task) :
+    (endBodyStep s t).owner = s.owner ∧ (endBodyStep s t).names = s.names ∧ (endBodyStep s t).entry = s.entry ∧
+    (endBodyStep s t).ours = s.ours ∧ (endBodyStep s t).live = s.live ∧ (endBodyStep s t).started = s.started ∧
+    (endBodyStep s t).foreign = s.foreign ∧ (endBodyStep s t).reaperQ = s.reaperQ ∧
+    (endBodyStep s t).cancelReq = s.cancelReq ∧ (endBodyStep s t).keyErr = s.keyErr ∧
+    (endBodyStep s t).claimed = s.claimed ∧ (endBodyStep s t).selfEnq = s.selfEnq ∧
+    (∀ u, (endBodyStep s t).parked u = true → s.parked u = true) := by
+  unfold endBodyStep
+  split
+  · refine ⟨rfl, rfl, rfl, rfl, rfl, rfl, rfl, rfl, rfl, rfl, rfl, rfl, ?_⟩
+    intro u hu
+    simp only [upd_apply] at hu
+    split at hu
+    · cases hu
+    · exact hu
+  · exact ⟨rfl, rfl, rfl, rfl, rfl, rfl, rfl, rfl, rfl, rfl, rfl, rfl, fun _ h => h⟩
+
+theorem inv_endBody (s : St κ) (t : Task) (h : Inv s) : Inv (endBodyStep s t) := by
+  obtain ⟨e1, e2, e3, e4, e5, e6, e7, e8, e9, e10, e11, e12, e13⟩ := endBody_fields s t
+  have hp : ∀ u, Pending (endBodyStep s t) u ↔ Pending s u := by
+    intro u; unfold Pending; rw [e8, e9]
+  obtain ⟨h1, h2, h3, h4, h5, h6, h7, h8, h9, h10, h11, h12⟩ := h
+  refine ⟨?_, ?_, ?_, ?_, ?_, ?_, ?_, ?_, ?_, ?_, ?_, ?_⟩
+  · intro k u e; rw [e1] at e; rw [e2, e5, e4, e3]; exact h1 k u e
+  · intro k u hk; rw [e2] at hk; rw [e1]; exact h2 k u hk
+  · intro u; rw [e2]; exact h3 u
+  · intro k u hc hl ho; rw [e11] at hc; rw [e5] at hl; rw [e1] at ho; exact (hp u).2 (h4 k u hc hl ho)
+  · intro u; rw [e4, e5, e7]; exact h5 u
+  · intro u hl; rw [e5] at hl; rw [e6]; exact h6 u hl
+  · intro u he; rw [e3] at he; rw [e5]; exact h7 u he
+  · intro u hu
+    have := h8 u (e13 u hu)
+    rw [e5]; exact ⟨this.1, (hp u).2 this.2⟩
+  · intro u hf hpu; rw [e7] at hf; rw [e12]; exact h9 u hf ((hp u).1 hpu)
+  · intro u hpu; rw [e6]; exact h10 u ((hp u).1 hpu)
+  · intro k u hc; rw [e11] at hc; rw [e6]; exact h11 k u hc
+  · rw [e10]; exact h12
+
 theorem inv_step (s : St κ) (op : Op κ) (h : Inv s) : Inv (step s op) := by
   cases op with
+  | endBody t => exact inv_endBody s t h
   | spawn t fg => exact inv_spawn s t fg h
   | unique t k km => exact inv_unique s t k km h
   | reap => exact inv_reap s h
@@ -748,6 +788,13 @@ theorem sim_step (m : St κ) (sp : Sp κ) (op : Op κ) (hi : Inv m) (h : Sim m s
       split
       · simp
       · exact e u
+  | endBody t =>
+    simp only [step, Sp.step, endBodyStep]
+    rw [show sp.alive t = m.live t from by rw [h.live]]
+    obtain ⟨a, b, c, d, e⟩ := h
+    split
+    · exact ⟨a, b, c, by simp only [d], e⟩
+    · exact ⟨a, b, c, d, e⟩
   | decoNew t k km =>
     simp only [step, Sp.step, decoNewStep, decoRuns, nameUsed]
     rw [show sp.owner k = m.owner k from by rw [h.owner]]
@@ -833,7 +880,7 @@ theorem reapStep_eq (s : St κ) : reapStep s = match s.reaperQ with
     | h :: q => if s.live h then { s with reaperQ := q, cancelReq := upd s.cancelReq h true, reaping := none }
                 else { s with reaperQ := q, reaping := none } := by
   unfold reapStep reapStepCfg
-  simp only [current, Bool.not_true, Bool.false_and, Bool.false_eq_true, if_false]
+  simp only [current_eq, Bool.not_true, Bool.false_and, Bool.false_eq_true, if_false]
   cases s.reaperQ <;> rfl
 
 theorem reapCycle_spec (s : St κ) (hd : Task) (q : List Task) (hq : s.reaperQ = hd :: q) :
